@@ -1,1 +1,52 @@
-From LV Require Import model.Processor spec.ProcessorSpec.
+(* C15 — Event processor releases every event and balances its semaphore.
+   Model: model/Processor.v, a step machine over SEnq / SArrive / SConsume / SStop (every
+   interleaving of Enqueue callers, `checked` closures and the single inserter worker is a
+   sequence of these steps), on top of the C14 buffer model.  [phist h0 steps] = all application
+   callbacks of the run, oldest first.  fc/fp: arbitrary CheckParents / Process failure oracles. *)
+From Coq Require Import NArith List.
+From LV Require Import model.Buffer model.Processor spec.ProcessorSpec
+  proofs.ProcessorFrame proofs.ProcessorOrder.
+Import ListNotations.
+Local Open Scope N_scope.
+
+(* the amount held in the events semaphore never exceeds its capacity: all step sequences *)
+Theorem C15_sem_within_capacity : forall fc fp cap_n cap_s lim_n lim_s h0 steps,
+  held_n (prun fc fp cap_n cap_s lim_n lim_s h0 steps) <= cap_n /\
+  held_s (prun fc fp cap_n cap_s lim_n lim_s h0 steps) <= cap_s.
+Proof. exact held_le_cap. Qed.
+
+(* events of an ordered batch reach `process` (hence the ordering buffer) in batch order, for
+   every arrival permutation of the check results and every interleaving.  Hypothesis: the
+   script is well formed — different Enqueue calls carry different event copies. *)
+Theorem C15_ordered_in_order : forall fc fp cap_n cap_s lim_n lim_s h0 steps b,
+  NoDup (all_g steps) -> In (SEnq b) steps -> b_ordered b = true ->
+  exists k, handles_of (phist fc fp cap_n cap_s lim_n lim_s h0 steps) b = firstn k (gs b).
+Proof. exact ordered_in_order. Qed.
+
+(* non-vacuity: an ordered batch of three events whose check results arrive as 2,0,1 while a
+   second batch is enqueued in between; the events are handled as 0,1,2 *)
+Definition c15_b1 : batch :=
+  mkBatch 1 true [mkPev 0 1 [] 2 1 false; mkPev 1 2 [1] 3 2 false; mkPev 2 3 [2] 4 3 true].
+Definition c15_b2 : batch := mkBatch 2 false [mkPev 3 4 [3] 1 4 false].
+Definition c15_steps : list pstep :=
+  [SEnq c15_b1; SArrive 1 2; SConsume; SEnq c15_b2; SArrive 2 0; SArrive 1 0; SConsume; SArrive 1 1;
+   SConsume; SConsume; SConsume; SConsume; SStop].
+Example C15_nonvacuous :
+  NoDup (all_g c15_steps) /\
+  phist (tbl_check []) (tbl_process []) 10 100 5 100 0 c15_steps =
+  [ PAccepted 1; PAccepted 2;
+    PHighest; PHandle 0; PCheck 0 1 true; PProcess 0 1 true; PReleased 0 1 0;
+    PHighest; PHandle 1; PCheck 1 2 true; PProcess 1 2 true; PReleased 1 2 0;
+    PHandle 2; PReleased 2 3 6; PDone 1;
+    PHighest; PHandle 3; PDone 2;
+    PReleased 3 4 4; PStopped ]
+  /\ held_n (prun (tbl_check []) (tbl_process []) 10 100 5 100 0 c15_steps) = 0.
+Proof.
+  split; [|split].
+  - vm_compute. repeat (constructor; [simpl; intuition discriminate|]). constructor.
+  - vm_compute. reflexivity.
+  - vm_compute. reflexivity.
+Qed.
+
+Print Assumptions C15_sem_within_capacity.
+Print Assumptions C15_ordered_in_order.
